@@ -419,7 +419,10 @@ def gen_dec(r, k):
         d = "d%d" % ci
         cmds, tags = [], []
         L = r.choice([65536, 65536, 65536, 200, 100, 42, 0, 1000000])
-        cmds.append("dnew %s %s" % (d, zs(L)))
+        if L == 65536 and r.random() < 0.4:
+            cmds.append("dnewd %s" % d)             # Decoder() with its documented defaults
+        else:
+            cmds.append("dnew %s %s" % (d, zs(L)))
         ctx = S.Ctx()
         if r.random() < 0.3:
             lim = r.choice([0, 64, 100, 4096, 8192, 100000])
